@@ -250,6 +250,47 @@ Fixpoint lbad (j : nat) (cs : list (nat * list (lop nat) * list (lout nat))) : l
 """
 
 
+def unserialisable_family(ld, r, count):
+    """examples that the cache cannot snapshot (they carry a generator, a lambda, a lock): the access is refused loudly, or - if an
+    example is handed out - it is isolated like any other: a consumer's modification never shows in a later access"""
+    import threading
+    fails = []
+    with warnings.catch_warnings():
+        warnings.simplefilter('ignore')
+        for _ in range(count):
+            n = r.randint(1, 4)
+            bad = r.randrange(n)
+            what = r.choice(['generator', 'lambda', 'lock'])
+            raw = {}
+            for i in range(n):
+                ex = {'id': i, 'tags': []}
+                if i == bad:
+                    ex['x'] = (j for j in range(3)) if what == 'generator' else (lambda: 0) if what == 'lambda' else threading.Lock()
+                raw[f'key{i}'] = ex
+            mode = r.choice(['pickle', 'copy'])
+            keyed = r.random() < 0.5
+            up = ld.core.DictDataset(raw) if keyed else ld.core.ListDataset(list(raw.values()))
+            try:
+                d = ld.core.CacheDataset(up, immutable_warranty=mode) if r.random() < 0.6 else up.cache()
+            except Exception:
+                continue
+            paths = [lambda: d[bad], lambda: d[bad - n], lambda: list(d)[bad], lambda: list(d[bad:bad + 1])[0]] + ([lambda: d[f'key{bad}'], lambda: list(d.items())[bad][1]] if keyed else [])
+            seen_mutation = None
+            for step in range(4):
+                try:
+                    ex = r.choice(paths)()
+                except Exception:
+                    continue                      # refused loudly: nothing was handed out
+                if ex['tags']:
+                    seen_mutation = (step, ex['tags'])
+                    break
+                ex['tags'].append(step + 1)      # the consumer modifies what it got
+            if seen_mutation:
+                fails.append(f'{mode}-mode memory cache over a shared upstream, example {bad} carries a {what}: access number {seen_mutation[0] + 1} returned an example with the '
+                             f'consumer\'s earlier modification {seen_mutation[1]} (handed out without a snapshot)')
+    return fails
+
+
 def run(tier):
     ld = common.import_impl()
     r = common.rng_for('C09')
@@ -304,6 +345,8 @@ def run(tier):
             cases.append(coq_case(kind, n, ops, outs))
             meta.append((kind, n, keyed, ops, outs))
     shutil.rmtree(tmp, ignore_errors=True)
+    for msg in unserialisable_family(ld, common.rng_for('C09-unser'), 1000 if big else 100):
+        failures.append(dict(kind='history', summary=msg[:600], config=dict(kind='unserialisable')))
     d = common.fresh_dir(f'C09_{tier}')
     f = os.path.join(d, 'i.v')
     with open(f, 'w') as fh:
@@ -337,6 +380,10 @@ def run(tier):
 def replay(payload):
     ld = common.import_impl()
     c = payload['config']
+    if c.get('kind') == 'unserialisable':
+        ff = unserialisable_family(ld, common.rng_for('C09-unser'), 100)
+        print('  ', ff[:2])
+        return bool(ff)
     tmp = tempfile.mkdtemp(prefix='c09r_')
     common.trip_unrelated_cache_guard(ld)          # as in the run: some other cache of the process has hit its memory guard before
     outs = run_history(ld, c['kind'], c['n'], c['keyed'], [tuple(o) for o in c['ops']], tmp, c.get('shape', 'dict'))
